@@ -26,6 +26,10 @@ Steps(c) ==
     [] c.ctx = "fields-nonstrict" -> MeantFields(c.items, 1, MinusOne, TRUE)
     [] c.ctx \in {"const", "default", "list", "mapkey", "typedef-const"} -> << ConstStep(c.ty, LimbsOf(c.items[1].lit), TRUE) >>
     [] c.ctx \in {"enum-const", "enum-default", "enum-list"} -> << EnumValueStep(LimbsOf(c.items[1].lit), FALSE) >>
+    \* an item of an enum written where an integer is expected (enum E { P = lit }, const ty x = E.P): not a value of that type;
+    \* should it ever be accepted, the number is the item's value and has to fit the type like any other
+    [] c.ctx \in {"enumitem-const", "enumitem-default", "enumitem-list"} ->
+         << [ok |-> FALSE, stored |-> LimbsOf(c.items[1].lit), meant |-> LimbsOf(c.items[1].lit)] >>
     [] OTHER -> <<>>
 
 MustReject(c) == c.ctx \in {"dup-id", "dup-name", "dup-item", "dup-item-case", "self-const", "self-const-2", "self-const-struct", "self-const-struct-2", "self-const-list", "self-service", "self-service-2", "dup-fn", "throws-typedef", "throws-struct", "throws-primitive", "oneway-result", "oneway-throws", "dup-param-id", "dup-param-name", "dup-throws-id", "union-required", "extends-struct", "extends-missing", "dup-type-name"}
